@@ -1,5 +1,6 @@
 """Harness-side helpers for engine M: symbolic inputs by field name, obligations, evidence."""
 import json
+import re
 import os
 import sys
 import time
@@ -132,6 +133,23 @@ class Harness:
                 rec = {"name": name, "time_s": round(time.time() - t0, 4), "status": "holds", "identity": True}
                 self.obligations.append(rec)
                 return rec
+            # second stage: domain assumptions and the definitions of fresh variables only (no branch conditions):
+            # still a sound proof (fewer hypotheses), and much easier for the nonlinear solver
+            if getattr(st, "defs", ()):
+                s1 = z3.Solver()
+                s1.set("timeout", 15000)
+                for _, a in self.assumptions:
+                    s1.add(a)
+                for c in st.defs:
+                    s1.add(c)
+                s1.add(z3.Not(claim))
+                t1 = time.time()
+                r1 = s1.check()
+                self.solver_time += time.time() - t1
+                if r1 == z3.unsat:
+                    rec = {"name": name, "time_s": round(time.time() - t1, 4), "status": "holds", "without_branch_conditions": True}
+                    self.obligations.append(rec)
+                    return rec
         s = z3.Solver()
         s.set("timeout", self.timeout_ms)
         for _, a in self.assumptions:
@@ -167,6 +185,14 @@ class Harness:
         else:
             rec["status"] = "unknown"
             rec["reason"] = s.reason_unknown()
+            if os.environ.get("M2S_DUMP_UNKNOWN"):
+                fn = os.path.join(os.environ["M2S_DUMP_UNKNOWN"], re.sub(r"[^\w]", "_", self.name + "_" + name)[:120] + ".smt2")
+                open(fn, "w").write("(set-logic ALL)\n" + s.to_smt2())
+            # second opinion on a hard query: cvc5 on the same SMT-LIB text
+            r2 = second_opinion(s, max(20, self.timeout_ms // 1000))
+            if r2 == "unsat":
+                rec["status"] = "holds"
+                rec["decided_by"] = "cvc5"
         self.obligations.append(rec)
         return rec
 
@@ -252,6 +278,24 @@ class Harness:
             "mir_statements_executed": self.eng.stats["stmts"],
             "wall_s": round(time.time() - self.t0, 3),
         }
+
+
+def second_opinion(solver, tlimit_s):
+    """run cvc5 on the solver's assertions; 'unsat' / 'sat' / 'unknown' (any error line = unknown)"""
+    import subprocess, tempfile
+    try:
+        txt = "(set-logic ALL)\n" + solver.to_smt2()
+        with tempfile.NamedTemporaryFile("w", suffix=".smt2", delete=False, dir=os.environ.get("NREL_ALTRIOS_VERIF_DIR", "/verif") + "/build") as f:
+            f.write(txt)
+            fn = f.name
+        p = subprocess.run(["cvc5", "--lang", "smt2", f"--tlimit={tlimit_s * 1000}", fn], capture_output=True, text=True, timeout=tlimit_s + 10)
+        os.unlink(fn)
+        out = p.stdout.strip().splitlines()
+        if any("(error" in l for l in out) or not out:
+            return "unknown"
+        return out[0].strip()
+    except Exception:
+        return "unknown"
 
 
 def z3val(mv):
